@@ -279,7 +279,7 @@ impl Property for C14 {
             .boxed()
     }
     fn cases(tier: Tier) -> u32 {
-        tier.pick(15_000, 300_000)
+        tier.pick(100_000, 500_000)
     }
     fn exhaustive(_tier: Tier, sink: &mut dyn FnMut(Scenario)) -> Vec<String> {
         let mut n = 0;
